@@ -26,7 +26,7 @@ RULE = (
     "appenders or a helper that appends to a &mut String parameter) is followed on every path to the return by a write of state.col."
 )
 
-CRATES = ["veryl_pretty"]
+CRATES = ["veryl_pretty", "veryl_formatter", "veryl_emitter"]
 M = "veryl_pretty::render::"
 DOC = "veryl_pretty::doc::Doc"
 PUSH_STR = r"^alloc::string::String::push_str$"
@@ -441,9 +441,68 @@ def run(world, tier, info, only=None):
                   "so the cursor (and every anchor recorded after it on that line) is off by what was written here")
     ck.floor("R7", "writes to state.out outside the flush/break/comment helpers", n7, 4)
     cursor_obligations(ck, w)
+    n_rel = 0
+    for fnm in ("render_frame", "emit_anchored", "render_comments"):
+        n_rel += relative_advance_guarded(ck, "R8", w, M + fnm, r"render::State$", "col", fnm)
+    ck.floor("R8", "relative text advances of state.col", n_rel, 3)
+    # the IfBreak payload is only ever a single-line literal
+    n_ib = 0
+    for q, sq in sorted(w.fns.items()):
+        if sq.get("alias_of") or not any((c["c"] or "") == "veryl_pretty::doc::if_break" for c in sq["calls"]):
+            continue
+        gq = Fn(w.mir(q))
+        for bi, t in gq.calls(r"^veryl_pretty::doc::if_break$"):
+            n_ib += 1
+            d = gq.describe(t["args"][0], 8)
+            txt = repr(d)
+            lit = re.findall(r"\('const', '([^']*)'\)", txt)
+            ok = bool(lit) and all("\\n" not in x and "\n" not in x for x in lit) and "arg" not in txt
+            ck.ob("R8", "if_break-texts-are-single-line:%s@%d" % (q.split("::")[-1], n_ib), ok if lit or "arg" in txt else None, site(sq, t["l"]),
+                  "doc::if_break is given the literal %s" % lit if ok else "doc::if_break is given a text that is not a single-line literal (%s)" % txt[:80])
+    ck.floor("R8", "doc::if_break call sites", n_ib, 5)
     n_col = col_units(ck, w)
     ck.analysed = {"functions": [M + n for n in need], "doc_variants": variants, "col_writes": n_col}
     return ck.finish(info)
+
+
+# ------------------------------------------------------------------ a relative advance needs a text without line breaks
+def relative_advance_guarded(ck, R, w, p, adt_rx, field, label):
+    """`cursor += chars(text)` is right only if `text` has no line break; otherwise the cursor is 1 (or 0) + chars(last line).
+    Every write of the column that adds a character count of a text to the column's old value must be dominated by a fact that the
+    text's newline count is zero (or that no '\n' was found)."""
+    from mirlib import MustFacts, Sem
+    sm = w.fns[p]
+    g = Fn(w.mir(p))
+    mf = MustFacts(g)
+    sem = Sem(g, 14)
+    n = 0
+    for bi, si, st in flow.field_writes(g, adt_rx, field):
+        if st[2][0] != "use" or st[2][1][0] == "k":
+            continue
+        d = repr(g.describe(st[2][1], 10))
+        if not (re.search(r"'bin', '(Add|AddWithOverflow)'", d) and ("'%s'" % field) in d and re.search(r"Iterator>?::count", d) and "chars" in d):
+            continue
+        n += 1
+        S = mf.state_at(bi, si)
+        fx = sem.facts(S[0]) if S else ()
+        ok = False
+        # separators: Doc::Line holds a &'static str chosen by the builders; Doc::IfBreak's callers are checked in R8 (single-line literals)
+        m_sep = re.search(r"'v', '(Line|IfBreak)'", d) or re.search(r"\('(Line|IfBreak)'", d)
+        if m_sep:
+            ck.ob(R, "relative-advance-needs-single-line:%s@%d" % (label, n), True, site(sm, st[3]),
+                  "the text is the separator payload of Doc::%s (a literal without line breaks, see if_break-texts-are-single-line)" % m_sep.group(1))
+            continue
+        for x in fx:
+            if x[0] == "cmp" and len(x) >= 5 and "matches" in repr(x[2]) and "count" in repr(x[2]) and repr(x[3]) in ("('const', 0)",):
+                if (x[1], x[4]) in (("Gt", False), ("Le", True), ("Eq", True), ("Ne", False), ("Lt", True)) or (x[1] == "Ge" and False):
+                    ok = True
+            if x[0] == "isvariant" and x[2] == "None" and re.search(r"rfind|find|rsplit_once|split_once", repr(x[1])):
+                ok = True
+        ck.ob(R, "relative-advance-needs-single-line:%s@%d" % (label, n), ok, site(sm, st[3]),
+              "the column is advanced by the text's character count only where the text has no line break" if ok else
+              "the column is advanced relatively (old column + characters of the text) on a path where the text may contain a line break: after a "
+              "multi-line token the cursor is too far right and what follows on the line is placed (or mapped) wrongly")
+    return n
 
 
 # ------------------------------------------------------------------ R6 units
